@@ -4,6 +4,7 @@
 //!
 //!   harness <component> gen <seed> <tier> <outdir>   writes <outdir>/ops.txt, gen_stats.json
 //!   harness <component> run <opsfile> <outdir>       writes <outdir>/impl.txt, oracle.txt
+mod codec;
 mod rng;
 mod segments;
 mod util;
@@ -30,6 +31,7 @@ fn main() {
             let mut stats = util::Stats::default();
             match comp {
                 "segments" => segments::gen(seed, tier, &mut w, &mut stats),
+                "codec" => codec::gen(seed, tier, &mut w, &mut stats),
                 _ => panic!("unknown component {comp}"),
             }
             w.flush().unwrap();
@@ -43,6 +45,7 @@ fn main() {
             let mut orc = BufWriter::new(fs::File::create(format!("{outdir}/oracle.txt")).unwrap());
             match comp {
                 "segments" => segments::run(&ops, &mut out, &mut orc),
+                "codec" => codec::run(&ops, &mut out, &mut orc),
                 _ => panic!("unknown component {comp}"),
             }
             out.flush().unwrap();
